@@ -138,7 +138,8 @@ def wf_insn(item):
             elif g["name"][i] not in g["fcn_decl"][i] or not g["name"][i].isidentifier():
                 probs.append(("c11:getter", f"getter {g['name'][i]} vs declaration {g['fcn_decl'][i]}"))
             out.append(dict(key=f"insn:{name}/{i}", fmt=fmt, verdict="ok", problems=probs, il=il if probs else "",
-                            getter=g["name"][i], c=b))
+                            getter=g["name"][i], c=b, time=wf.WF_SECONDS[0]))
+            wf.WF_SECONDS[0] = 0.0
     return out
 
 
